@@ -135,7 +135,7 @@ class DataboxWorld(World):
             "actors": rng.randint(1, 2) if tier == "quick" else rng.randint(1, 3),
             "paths": rng.randint(1, 3),
             "steps": rng.choice([15, 25, 40]) if tier == "quick" else rng.choice([15, 25, 40, 80, 120]),
-            "nan_density": rng.choice([0.0, 0.1, 0.3, 0.5]), "inf_density": rng.choice([0.0, 0.0, 0.0, 0.04, 0.1]), "p_eintr": rng.choice([0.0, 0.0, 0.2, 0.5]),
+            "nan_density": rng.choice([0.0, 0.1, 0.3, 0.5]), "inf_density": rng.choice([0.0, 0.0, 0.05, 0.1, 0.2]), "p_eintr": rng.choice([0.0, 0.0, 0.2, 0.5]),
             "max_len": rng.choice([2, 5, 9]) if tier == "quick" else rng.choice([2, 5, 9, 20]),
             "max_nv": rng.choice([1, 2, 3]) if tier == "quick" else rng.choice([1, 2, 3, 4]),
             "max_items": rng.choice([3, 5, 8]) if tier == "quick" else rng.choice([3, 5, 8, 12]),
